@@ -641,6 +641,9 @@ def isa_term(isa, gb):
 
 
 # ------------------------------------------------------------------------------------------------ statements
+CLEAN = [False]      # set by gen_statement: statements that are meant to be plain well-formed uses of their variant
+
+
 def operand_for(rng, alt, labels, addr_hint=0):
     """an operand text aimed at this alternative (mostly matching)"""
     k = alt['kind']
@@ -690,7 +693,7 @@ def operand_for(rng, alt, labels, addr_hint=0):
         size = alt['arg']['size']
         e = x_value(rng, rng.choice([0, 1, (1 << size) - 1, (1 << (size - 1)) - 1, 5 % (1 << size), (1 << size) if rng.random() < 0.05 else 2 % (1 << size)]),
                     labels if size >= 16 else [])
-        if rng.random() < 0.08:
+        if not CLEAN[0] and rng.random() < 0.25:
             # a register name where a number or label is expected: never accepted by this alternative
             rg = rng.choice(REGS)
             e = rng.choice([Txt(rg, [t_lab(rg)]), Txt(rg + '+1', [t_lab(rg), t_op('OAdd'), t_num(1)]),
@@ -756,8 +759,9 @@ def random_operand(rng, labels):
     return x_expr(rng, labels, regs_ok=rng.random() < 0.3, depth=1)
 
 
-def gen_statement(rng, isa, labels, addr_hint, focus=None):
-    """['asm', mnemonic, [[text, tokens] operands]]"""
+def gen_statement(rng, isa, labels, addr_hint, focus=None, clean=False):
+    """['asm', mnemonic, [[text, tokens] operands]]; clean: no deliberately odd operand"""
+    CLEAN[0] = clean
     pool = list(isa['instrs']) + list(isa['macros'])
     mn = focus if focus and rng.random() < 0.6 else rng.choice(pool)
     vs = isa['instrs'].get(mn) or isa['macros'].get(mn)
@@ -782,18 +786,18 @@ def gen_statement(rng, isa, labels, addr_hint, focus=None):
         for alt in src or []:
             if alt['kind'] == 'empty':
                 continue
-            if rng.random() < 0.03:
+            if not clean and rng.random() < 0.1:
                 ops.append(random_operand(rng, labels))
             else:
                 ops.append(operand_for(rng, alt, labels, addr_hint))
-                if rng.random() < 0.06:
+                if not clean and rng.random() < 0.2:
                     # text left over after a well-formed operand must not be ignored
                     ops[-1] = ops[-1] + rng.choice([Txt('!', ['OBang']), Txt(' @ 9', ['OAt', t_num(9)]), Txt(' junk', [t_lab('junk')]),
                                                     Txt('+1', [t_op('OAdd'), t_num(1)]), Txt(' 7', [t_num(7)]), Txt(' ! 3', ['OBang', t_num(3)])])
-    r = rng.random()
-    if r < 0.015 and ops:
+    r = 1.0 if clean else rng.random()
+    if r < 0.05 and ops:
         ops.pop()
-    elif r < 0.03:
+    elif r < 0.1:
         ops.append(random_operand(rng, labels))
     if rng.random() < 0.06:
         mn = mn.upper()
@@ -821,13 +825,14 @@ def gen_isa_case(rng, prof, tier):
     n = rng.randint(1, 4) if tier == 'quick' else rng.randint(1, 10)
     placed = set()
     focus = rng.choice(list(isa['macros']) or list(isa['instrs'])) if rng.random() < 0.6 else None
+    odd = rng.randrange(n) if rng.random() < 0.45 else -1        # at most one deliberately odd statement per program
     for i in range(n):
         if rng.random() < 0.2:
             cands = [x for x in ('lbl1', 'lbl2') if x not in placed]
             if cands:
                 placed.add(cands[0])
                 stmts.append(['label', cands[0]])
-        stmts.append(gen_statement(rng, isa, labels, addr, focus))
+        stmts.append(gen_statement(rng, isa, labels, addr, focus, clean=(i != odd)))
         addr += 2
     for x in ('lbl1', 'lbl2'):
         if x not in placed:
@@ -901,6 +906,21 @@ def gen_macro_scenario(rng, prof=None, tier='quick'):
                            'idx': [{'id': 'ix1_0', 'kind': 'register', 'register': 'a', 'code': (5, 3)},
                                    {'id': 'ix1_1', 'kind': 'numeric_bytecode', 'code': None, 'code_size': 3, 'min': -4, 'max': 3}]}]
     isa['instrs']['add3'] = [variant(0x5, 3, sets_parser(['ixr']))]
+    # an enumeration whose code for one key is 0 (a code of zero is still a code), followed by fields that are not byte aligned
+    isa['sets']['enm'] = [{'id': 'en1', 'kind': 'enumeration', 'code': None, 'pos': 'suffix', 'code_size': 3,
+                           'code_dict': {'nz': 0, 'cs': 5, 'eq': 0}, 'arg': {'size': 4, 'align': False, 'endian': None},
+                           'arg_dict': {'nz': 9, 'cs': 0, 'eq': 15}}]
+    v = variant(0x2, 3, sets_parser(['enm']))
+    v['suffix'] = (1, 2)
+    isa['instrs']['cmpq'] = [v]
+    # a macro whose later variant accepts everything the earlier one does, and more: which variant an invocation gets must
+    # not depend on what was assembled before it
+    isa['macros']['mac4'] = [{'parser': spec_parser(1, [[regalt(9, 'a', 1)]]), 'steps': [{'mn': 'mov', 'ops': [[('ph', 'OP', 0)]]}]},
+                             {'parser': sets_parser(['rr']), 'steps': [{'mn': 'tst', 'ops': []}, {'mn': 'mov', 'ops': [[('ph', 'OP', 0)]]}]}]
+    # the first variant that accepts `a` uses a placeholder that `a` cannot fill (a register has no argument text): the
+    # invocation is rejected, not handed on to the later variant that would also accept it
+    isa['macros']['mac5'] = [{'parser': spec_parser(1, [[regalt(11, 'a', 1)]]), 'steps': [{'mn': 'ldx', 'ops': [[('ph', 'ARG', 0)]]}]},
+                             {'parser': sets_parser(['rr']), 'steps': [{'mn': 'mov', 'ops': [[('ph', 'OP', 0)]]}]}]
     ph = ('ph', 'ARG', 0)
     forms = [[ph], [ph, ('tok', '*', t_op('OMul')), ('tok', '2', t_num(2))], [('tok', '3', t_num(3)), ('tok', '*', t_op('OMul')), ph],
              [ph, ('tok', '+', t_op('OAdd')), ('tok', '1', t_num(1))], [('tok', '9', t_num(9)), ('tok', '-', t_op('OSub')), ph],
@@ -933,26 +953,47 @@ def gen_macro_scenario(rng, prof=None, tier='quick'):
         if rng.random() < 0.5:
             return Txt(n, [t_lab(n)])
         return Txt(f'{n}+{b}', [t_lab(n), t_op('OAdd'), t_num(b)])
-    for _ in range(rng.randint(2, 6)):
-        r = rng.random()
-        if r < 0.45:
+    kinds = ['dbl'] * 5 + ['mac1'] * 2 + ['mac2'] * 2 + ['swp', 'mac3', 'mac3', 'add3', 'add3', 'cmpq', 'cmpq', 'mac4', 'mac4', 'mac5', 'mac5',
+                                                          'ldx', 'tst']
+    # a program is rejected as a whole by one unacceptable statement: at most one statement kind that may be unacceptable
+    risky_left = 1 if rng.random() < 0.5 else 0
+    for _ in range(rng.randint(2, 7)):
+        k = rng.choice(kinds)
+        if k == 'dbl':
             x = small_expr()
             stmts.append(['asm', 'dbl', [[x.text, x.toks]]])
-        elif r < 0.6:
-            stmts.append(['asm', 'mac1', rng.choice([[], [['a', [t_lab('a')]]], [['b', [t_lab('b')]]]])])
-        elif r < 0.7:
-            stmts.append(['asm', 'mac2', rng.choice([[['b', [t_lab('b')]]], [['a', [t_lab('a')]]], []])])
-        elif r < 0.76:
+        elif k == 'mac1':
+            ok = [[], [['a', [t_lab('a')]]]]
+            stmts.append(['asm', 'mac1', rng.choice(ok + ([[['b', [t_lab('b')]]]] if risky_left else []))])
+            risky_left = 0 if stmts[-1][2] and stmts[-1][2][0][0] == 'b' else risky_left
+        elif k == 'mac2':
+            ok = [[['b', [t_lab('b')]]]]
+            pick = rng.choice(ok + ([[['a', [t_lab('a')]]], []] if risky_left else []))
+            risky_left = 0 if pick not in ok else risky_left
+            stmts.append(['asm', 'mac2', pick])
+        elif k == 'swp':
             stmts.append(['asm', 'swp', rng.choice([[], [['a', [t_lab('a')]]]])])
-        elif r < 0.84:
+        elif k == 'mac3':
             n = rng.choice(['lbl1', 'lbl2'])
             x = rng.choice([Txt(n, [t_lab(n)]), Txt(f'{n}+1', [t_lab(n), t_op('OAdd'), t_num(1)]), Txt(f'{n}-2', [t_lab(n), t_op('OSub'), t_num(2)])])
             stmts.append(['asm', rng.choice(['mac3', 'mac3', 'jmpz']), [[x.text, x.toks]]])
-        elif r < 0.9:
-            i = rng.choice(['KM1', 'KM2', 'K9', 'a', '3', '0', '4'])
+        elif k == 'add3':
+            i = rng.choice(['KM1', 'KM2', 'a', '3', '0'] + (['K9', '4'] if risky_left else []))
+            risky_left = 0 if i in ('K9', '4') else risky_left
             tok = t_num(int(i)) if i.isdigit() else t_lab(i)
             stmts.append(['asm', 'add3', [[f'x+{i}', [t_lab('x'), t_op('OAdd'), tok]]]])
-        elif r < 0.95:
+        elif k == 'cmpq':
+            kk = rng.choice(['nz', 'cs', 'eq'] + (['lo'] if risky_left else []))
+            risky_left = 0 if kk == 'lo' else risky_left
+            stmts.append(['asm', 'cmpq', [[kk, [t_lab(kk)]]]])
+        elif k == 'mac4':
+            for rg in rng.choice([['b', 'a'], ['a', 'b', 'a'], ['a'], ['b', 'a', 'a']]):
+                stmts.append(['asm', 'mac4', [[rg, [t_lab(rg)]]]])
+        elif k == 'mac5':
+            rg = rng.choice(['b', 'b'] + (['a', 'a'] if risky_left else []))
+            risky_left = 0 if rg == 'a' else risky_left
+            stmts.append(['asm', 'mac5', [[rg, [t_lab(rg)]]]])
+        elif k == 'ldx':
             x = small_expr()
             stmts.append(['asm', 'ldx', [[x.text, x.toks]]])
         else:
